@@ -24,12 +24,12 @@ def export(ctx):
 
 
 # ------------------------------------------------------------------ conventions: value -> document
-def leaf_doc(p, text, fam):
-    """the document value of a leaf given as canonical text"""
+def leaf_doc(p, text, fam, rawas='str'):
+    """the document value of a leaf given as canonical text (rawas: MessagePack text as str or as bin holding its UTF-8 bytes)"""
     if p in INT_TYPES:
         n = int(text)
         if fam in PACKED and not (-(1 << 63) <= n < (1 << 64)):
-            return text                      # beyond msgpack's integers: decimal text
+            return text.encode('ascii') if rawas == 'bin' else text          # beyond msgpack's integers: decimal text
         return n
     if p == 'Double':
         return float(text)
@@ -38,7 +38,9 @@ def leaf_doc(p, text, fam):
     if p == 'ByteArray':
         return base64.b64decode(text) if fam in PACKED else text
     if p == 'Unicode':
-        return TEXTS.get(text, text)
+        text = TEXTS.get(text, text)
+    if fam in PACKED and rawas == 'bin':
+        return text.encode('utf8')
     return text                              # decimals, dates, uuids travel as their text
 
 
@@ -61,7 +63,7 @@ def value_doc(t, v, cfg):
         return None
     k = t['k']
     if k == 'prim':
-        return leaf_doc(t['p'], v[1], cfg['fam'])
+        return leaf_doc(t['p'], v[1], cfg['fam'], cfg.get('rawas', 'str'))
     if k == 'attr':
         return value_doc(t['of'], v, cfg)
     if k == 'arr':
